@@ -145,7 +145,7 @@ def run_trees(seed, trials):
                     # (in one tree out of three resource names come from a small pool: windows are then refused for name clashes,
                     #  also clashes with names a window absorbed from its own anonymous windows - a refusal must leave no trace)
                     r = R(); cnt[0] += 1; name = f"r{cnt[0]}" if not pooled[0] else rng.choice(["a", "b", "c", "d", "e", "f"])
-                    s, e = m.add_resource(r, name=name, size=rng.choice([1, 1, 2, 3, 4]),
+                    s, e = m.add_resource(r, name=name, size=rng.choice([1, 1, 2, 3, 4, 0]),
                                           addr=rng.choice([None, None, None, rng.randrange(0, 1 << aw)]), alignment=rng.choice([None, None, 0, 1, 2]))
                     exp.append((r, (MemoryMap.Name(name),), s, e, dw))
                 else:
